@@ -254,11 +254,25 @@ def splice(h, binding, context, target, caller_names, tag, nonnull=None):
             lambdas[p] = a
     if lambdas:
         body = [_Beta(lambdas).visit(st) for st in body]
+    def _const_display(e):
+        return isinstance(e, (ast.List, ast.Tuple)) and all(isinstance(x, ast.Constant) or _const_display(x) for x in e.elts)
+
+    def _read_once_outside_loops(p):
+        uses = [x for st in body for x in ast.walk(st) if isinstance(x, ast.Name) and x.id == p]
+        if len(uses) != 1 or not isinstance(uses[0].ctx, ast.Load):
+            return False
+        for st in body:
+            for lp in ast.walk(st):
+                if isinstance(lp, (ast.For, ast.While, ast.ListComp, ast.SetComp, ast.DictComp, ast.GeneratorExp, ast.Lambda, ast.FunctionDef)) and any(x is uses[0] for x in ast.walk(lp)):
+                    return False
+        return True
     for p, a in binding.items():
         if p in lambdas:
             continue
         if _pure(a) and p not in helper_assigned:
             subst[p] = a
+        elif _const_display(a) and p not in helper_assigned and _read_once_outside_loops(p):
+            subst[p] = a        # a literal display read exactly once: built where it is used instead of just before
         else:
             tmp = p if (p not in caller_names and p not in helper_assigned) else f"{p}__{tag}"
             pre.append(ast.Assign(targets=[ast.Name(id=tmp, ctx=ast.Store())], value=copy.deepcopy(a), lineno=0, col_offset=0))
